@@ -296,8 +296,12 @@ class ConvolvedFluxes(object):
         # Set wavelength
         c.central_wavelength = self.central_wavelength
 
-        # Save requested apertures
+        # Save requested apertures (in the units of the tabulated apertures, so
+        # that the comparisons and the interpolation below are done in the
+        # same units)
         c.apertures = apertures[:]
+        if self.apertures is not None:
+            c.apertures = c.apertures.to(self.apertures.unit)
 
         # Transfer model names
         c.model_names = self.model_names
@@ -307,7 +311,7 @@ class ConvolvedFluxes(object):
 
             # If any apertures are larger than the defined max, reset to max
             if np.any(c.apertures > self.apertures.max()):
-                apertures[c.apertures > self.apertures.max()] = self.apertures.max()
+                c.apertures[c.apertures > self.apertures.max()] = self.apertures.max()
 
             # If any apertures are smaller than the defined min, raise error
             if np.any(c.apertures < self.apertures.min()):
